@@ -70,11 +70,19 @@ REACH = [
 ]
 
 
+_CG = {}
+
+
 def error_sites(F, key):
-    """Counter of Error variants constructed on error paths of a function family."""
+    """Counter of Error variants constructed by a function, its closures and every crate function it
+    reaches (so that moving a check into a helper does not change the count)."""
     cnt = Counter()
     other = 0
-    for fb in F.family(key):
+    if id(F) not in _CG:
+        _CG.clear()
+        _CG[id(F)] = lib.CallGraph(F)
+    keys = _CG[id(F)].reachable([key])
+    for fb in [F.bodies[k] for k in sorted(keys)]:
         for b in sorted(fb.live_blocks()):
             for st in fb.stmts(b):
                 rv = st['rv']
